@@ -225,6 +225,167 @@ type Combined struct {
 	MWE map[uint64]WithEmbedded `serix:"mwe,lenPrefix=uint8"`
 }
 
+// ---- custom Serializables whose Encode result aliases other storage
+//
+// arena is shared storage: slot i is arena[4i:4i+4] and holds {lo(i), hi(i), ^lo(i), 0xA5}; the tail
+// is filler. ArenaKey/ArenaCoded.Encode return the window arena[4i:4i+4] - a slice whose spare
+// capacity is the neighbouring slots (a zero-copy ID into a parsed buffer). An encoder that appends
+// to such a result without copying overwrites the neighbours. SpareCap.Encode returns a fresh slice
+// with spare capacity (harmless to append to, but the output must still be exact).
+
+const arenaSlots = 24
+
+var arena = newArena()
+
+func newArena() []byte {
+	a := make([]byte, 4*arenaSlots+96)
+	for i := 0; i < arenaSlots; i++ {
+		copy(a[4*i:], arenaSlot(uint16(i)))
+	}
+	for i := 4 * arenaSlots; i < len(a); i++ {
+		a[i] = 0xC3
+	}
+	return a
+}
+
+func arenaSlot(i uint16) []byte { return []byte{byte(i), byte(i >> 8), ^byte(i), 0xA5} }
+
+// ArenaIntact reports whether the shared arena still has its original content (offset of the first changed byte otherwise).
+func ArenaIntact() (int, bool) {
+	want := newArena()
+	for i := range want {
+		if arena[i] != want[i] {
+			return i, false
+		}
+	}
+	return 0, true
+}
+
+// ArenaReset restores the arena.
+func ArenaReset() { copy(arena, newArena()) }
+
+func arenaDecode(b []byte) (uint16, error) {
+	if len(b) < 4 {
+		return 0, errors.New("arena id: short")
+	}
+	i := uint16(b[0]) | uint16(b[1])<<8
+	if i >= arenaSlots || b[2] != ^b[0] || b[3] != 0xA5 {
+		return 0, fmt.Errorf("arena id: malformed bytes % x", b[:4])
+	}
+	return i, nil
+}
+
+type ArenaKey struct{ slot uint16 }
+
+func (k ArenaKey) Encode() ([]byte, error) { o := 4 * int(k.slot); return arena[o : o+4], nil }
+func (k *ArenaKey) Decode(b []byte) (int, error) {
+	i, err := arenaDecode(b)
+	k.slot = i
+	return 4, err
+}
+func (k ArenaKey) EncodeJSON() (any, error) { return strconv.Itoa(int(k.slot)), nil }
+func (k *ArenaKey) DecodeJSON(v any) error {
+	s, ok := v.(string)
+	if !ok {
+		return errors.New("ArenaKey: want string")
+	}
+	n, err := strconv.ParseUint(s, 10, 16)
+	if err == nil && n >= arenaSlots {
+		err = errors.New("ArenaKey: slot out of range")
+	}
+	k.slot = uint16(n)
+	return err
+}
+
+// ArenaCoded: the same window, but the type has an object code (the encoder prepends it) and is a Shaper.
+type ArenaCoded struct{ slot uint16 }
+
+func (k ArenaCoded) Area() uint32            { return uint32(k.slot) }
+func (k ArenaCoded) Encode() ([]byte, error) { o := 4 * int(k.slot); return arena[o : o+4], nil }
+func (k *ArenaCoded) Decode(b []byte) (int, error) {
+	i, err := arenaDecode(b)
+	k.slot = i
+	return 4, err
+}
+func (k ArenaCoded) EncodeJSON() (any, error) {
+	return map[string]any{"type": 5, "slot": strconv.Itoa(int(k.slot))}, nil
+}
+func (k *ArenaCoded) DecodeJSON(v any) error {
+	m, ok := v.(map[string]any)
+	if !ok {
+		return errors.New("ArenaCoded: want object")
+	}
+	s, ok := m["slot"].(string)
+	if !ok {
+		return errors.New("ArenaCoded: want slot string")
+	}
+	n, err := strconv.ParseUint(s, 10, 16)
+	if err == nil && n >= arenaSlots {
+		err = errors.New("ArenaCoded: slot out of range")
+	}
+	k.slot = uint16(n)
+	return err
+}
+
+// SpareCap: Encode returns a fresh 2-byte slice with 30 bytes of spare capacity.
+type SpareCap struct{ v uint16 }
+
+func (c SpareCap) Encode() ([]byte, error) {
+	b := make([]byte, 32)
+	for i := range b {
+		b[i] = 0xEE
+	}
+	b[0], b[1] = byte(c.v>>8), byte(c.v)
+	return b[:2], nil
+}
+func (c *SpareCap) Decode(b []byte) (int, error) {
+	if len(b) < 2 {
+		return 0, errors.New("SpareCap: short")
+	}
+	c.v = uint16(b[0])<<8 | uint16(b[1])
+	return 2, nil
+}
+func (c SpareCap) EncodeJSON() (any, error) { return strconv.Itoa(int(c.v)), nil }
+func (c *SpareCap) DecodeJSON(v any) error {
+	s, ok := v.(string)
+	if !ok {
+		return errors.New("SpareCap: want string")
+	}
+	n, err := strconv.ParseUint(s, 10, 16)
+	c.v = uint16(n)
+	return err
+}
+
+// Aliasing uses the three kinds in every position (binary form; ArenaCoded cannot be a JSON map key).
+type Aliasing struct {
+	MK  map[ArenaKey]uint32      `serix:"mk,lenPrefix=uint8"`
+	MKK map[ArenaKey]ArenaKey    `serix:"mkk,lenPrefix=uint8"`
+	MKS map[ArenaKey]NamedString `serix:"mks,lenPrefix=uint8"`
+	MV  map[uint16]ArenaKey      `serix:"mv,lenPrefix=uint8"`
+	MS  map[SpareCap]SpareCap    `serix:"ms,lenPrefix=uint8"`
+	MC  map[ArenaCoded]uint64    `serix:"mc,lenPrefix=uint8"`
+	SL  []ArenaKey               `serix:"sl,lenPrefix=uint16"`
+	AR  [3]ArenaKey              `serix:"ar,lenPrefix=uint8"`
+	F   ArenaKey                 `serix:"f"`
+	G   SpareCap                 `serix:"g"`
+	P   *ArenaKey                `serix:"p,optional"`
+	I   Shaper                   `serix:"i"`
+	C   ArenaCoded               `serix:"c"`
+}
+
+// AliasingJSON: the subset the JSON form can express.
+type AliasingJSON struct {
+	MK  map[ArenaKey]uint32      `serix:"mk,lenPrefix=uint8"`
+	MKK map[ArenaKey]ArenaKey    `serix:"mkk,lenPrefix=uint16"`
+	MKS map[ArenaKey]NamedString `serix:"mks,lenPrefix=uint8"`
+	MV  map[uint64]ArenaKey      `serix:"mv,lenPrefix=uint8"`
+	MS  map[SpareCap]SpareCap    `serix:"ms,lenPrefix=uint8"`
+	SL  []ArenaKey               `serix:"sl,lenPrefix=uint8"`
+	F   ArenaKey                 `serix:"f"`
+	G   SpareCap                 `serix:"g"`
+	I   Shaper                   `serix:"i,optional"`
+}
+
 // ---- explicit ordering flags (registered per type)
 
 type LexFalseMap map[uint64]NamedString // WithLexicalOrdering(false)
@@ -292,7 +453,8 @@ func NewStatic() *Universe {
 	must(api.RegisterTypeSettings(Rect{}, ts.WithObjectType(uint8(2))))
 	must(api.RegisterTypeSettings(Blob{}, ts.WithObjectType(uint8(3))))
 	must(api.RegisterTypeSettings(CustomCoded{}, ts.WithObjectType(uint8(4))))
-	must(api.RegisterInterfaceObjects((*Shaper)(nil), Circle{}, (*Rect)(nil), Blob{}, CustomCoded{}))
+	must(api.RegisterTypeSettings(ArenaCoded{}, ts.WithObjectType(uint8(5))))
+	must(api.RegisterInterfaceObjects((*Shaper)(nil), Circle{}, (*Rect)(nil), Blob{}, CustomCoded{}, ArenaCoded{}))
 	must(api.RegisterTypeSettings(AccA{}, ts.WithObjectType(uint32(1))))
 	must(api.RegisterTypeSettings(AccB{}, ts.WithObjectType(uint32(0x01020304))))
 	must(api.RegisterInterfaceObjects((*Account)(nil), AccA{}, AccB{}))
@@ -354,7 +516,20 @@ func NewStatic() *Universe {
 		Set: func(dst reflect.Value, st uint64) { dst.Set(reflect.ValueOf(Custom24{v: uint32(st)})) },
 		Get: func(src reflect.Value) uint64 { return uint64(src.Interface().(Custom24).v) },
 	}}
-	shaperImpls := []*Shape{circle, ptr(rect), blob, customCoded}
+	slotGen := func(pick func(int) int, u64 func() uint64) uint64 { return uint64(pick(arenaSlots)) }
+	slotRef := func(st uint64) []byte { return arenaSlot(uint16(st)) }
+	arenaKey := &Shape{Kind: Custom, T: tof[ArenaKey](), Codec: &CustomCodec{Arena: true, JSONKey: true, Gen: slotGen, Ref: slotRef,
+		Set: func(dst reflect.Value, st uint64) { dst.Set(reflect.ValueOf(ArenaKey{slot: uint16(st)})) },
+		Get: func(src reflect.Value) uint64 { return uint64(src.Interface().(ArenaKey).slot) }}}
+	arenaCoded := &Shape{Kind: Custom, T: tof[ArenaCoded](), Code: &Code{1, 5}, Codec: &CustomCodec{Arena: true, Gen: slotGen, Ref: slotRef,
+		Set: func(dst reflect.Value, st uint64) { dst.Set(reflect.ValueOf(ArenaCoded{slot: uint16(st)})) },
+		Get: func(src reflect.Value) uint64 { return uint64(src.Interface().(ArenaCoded).slot) }}}
+	spareCap := &Shape{Kind: Custom, T: tof[SpareCap](), Codec: &CustomCodec{JSONKey: true,
+		Gen: func(pick func(int) int, u64 func() uint64) uint64 { return []uint64{0, 1, 0xffff, 0x100, u64() & 0xffff}[pick(5)] },
+		Ref: func(st uint64) []byte { return []byte{byte(st >> 8), byte(st)} },
+		Set: func(dst reflect.Value, st uint64) { dst.Set(reflect.ValueOf(SpareCap{v: uint16(st)})) },
+		Get: func(src reflect.Value) uint64 { return uint64(src.Interface().(SpareCap).v) }}}
+	shaperImpls := []*Shape{circle, ptr(rect), blob, customCoded, arenaCoded}
 	shaper := &Shape{Kind: Iface, T: tof[Shaper](), Impls: &shaperImpls, CodeW: 1}
 	accA := strct(tof[AccA](), &Code{4, 1}, &Field{Name: "ID", Key: "id", S: hash8}, &Field{Name: "Bal", Key: "bal", S: sc(Uint64)})
 	nameStr := str(goTypes[String], 1)
@@ -434,6 +609,30 @@ func NewStatic() *Universe {
 		&Field{Name: "OL", Key: "ol", S: tagged(slice(reflect.TypeOf([]Opt{}), 1, Rules{}, optS))},
 		&Field{Name: "MWE", Key: "mwe", S: tagged(mapOf(1, Rules{}, sc(Uint64), withEmbedded))},
 	)
+	arr3 := &Shape{Kind: Array, T: reflect.TypeOf([3]ArenaKey{}), N: 3, LP: 1, TagLP: true, Elem: arenaKey}
+	aliasing := strct(tof[Aliasing](), nil,
+		&Field{Name: "MK", Key: "mk", S: tagged(mapOf(1, Rules{}, arenaKey, sc(Uint32)))},
+		&Field{Name: "MKK", Key: "mkk", S: tagged(mapOf(1, Rules{}, arenaKey, arenaKey))},
+		&Field{Name: "MKS", Key: "mks", S: tagged(mapOf(1, Rules{}, arenaKey, namedString))},
+		&Field{Name: "MV", Key: "mv", S: tagged(mapOf(1, Rules{}, sc(Uint16), arenaKey))},
+		&Field{Name: "MS", Key: "ms", S: tagged(mapOf(1, Rules{}, spareCap, spareCap))},
+		&Field{Name: "MC", Key: "mc", S: tagged(mapOf(1, Rules{}, arenaCoded, sc(Uint64)))},
+		&Field{Name: "SL", Key: "sl", S: tagged(slice(reflect.TypeOf([]ArenaKey{}), 2, Rules{}, arenaKey))},
+		&Field{Name: "AR", Key: "ar", S: arr3},
+		&Field{Name: "F", Key: "f", S: arenaKey}, &Field{Name: "G", Key: "g", S: spareCap},
+		&Field{Name: "P", Key: "p", S: ptr(arenaKey), Optional: true},
+		&Field{Name: "I", Key: "i", S: shaper}, &Field{Name: "C", Key: "c", S: arenaCoded},
+	)
+	aliasingJSON := strct(tof[AliasingJSON](), nil,
+		&Field{Name: "MK", Key: "mk", S: tagged(mapOf(1, Rules{}, arenaKey, sc(Uint32)))},
+		&Field{Name: "MKK", Key: "mkk", S: tagged(mapOf(2, Rules{}, arenaKey, arenaKey))},
+		&Field{Name: "MKS", Key: "mks", S: tagged(mapOf(1, Rules{}, arenaKey, namedString))},
+		&Field{Name: "MV", Key: "mv", S: tagged(mapOf(1, Rules{}, sc(Uint64), arenaKey))},
+		&Field{Name: "MS", Key: "ms", S: tagged(mapOf(1, Rules{}, spareCap, spareCap))},
+		&Field{Name: "SL", Key: "sl", S: tagged(slice(reflect.TypeOf([]ArenaKey{}), 1, Rules{}, arenaKey))},
+		&Field{Name: "F", Key: "f", S: arenaKey}, &Field{Name: "G", Key: "g", S: spareCap},
+		&Field{Name: "I", Key: "i", S: shaper, Optional: true},
+	)
 	lexFalseMap := &Shape{Kind: Map, T: tof[LexFalseMap](), LP: 1, R: Rules{LexSet: true}, Key: sc(Uint64), Elem: namedString}
 	lexTrueMap := &Shape{Kind: Map, T: tof[LexTrueMap](), LP: 2, R: Rules{LexSet: true, AutoOrder: true, Min: 1, Max: 4}, Key: namedString, Elem: sc(Uint32)}
 	lexFalseList := slice(tof[LexFalseList](), 1, Rules{LexSet: true, ValOrder: true, NoDup: true}, sc(Uint32))
@@ -464,7 +663,7 @@ func NewStatic() *Universe {
 	topString := str(goTypes[String], 1) // registered lp32; option lp8
 	topString.Top = &TopSettings{LP: 1}
 
-	u.Shapes = []*Shape{ordMaps, topMap, topMap2, topMap3, topSlice, topSlice2, topBytes, topString, withEmbedded, withEmbeddedPtr, ptr(withEmbeddedPtr), withInlined, optS, ptr(bigTime), mapsBin, mapsJSON, lists, combined,
+	u.Shapes = []*Shape{aliasing, aliasingJSON, ordMaps, topMap, topMap2, topMap3, topSlice, topSlice2, topBytes, topString, withEmbedded, withEmbeddedPtr, ptr(withEmbeddedPtr), withInlined, optS, ptr(bigTime), mapsBin, mapsJSON, lists, combined,
 		circle, ptr(rect), accB}
 	return u
 }
